@@ -170,7 +170,18 @@ func c11Gen(t *rapid.T) C11Case {
 	return c
 }
 
-func headerMapsEqual(a, b map[string][]string) bool { return hdrSig(a) == hdrSig(b) }
+func headerMapsEqual(a, b map[string][]string) bool {
+	if len(a) != len(b) {
+		return false
+	}
+	for k, va := range a {
+		vb, ok := b[k]
+		if !ok || !eqStrs(va, vb) {
+			return false
+		}
+	}
+	return true
+}
 
 func c11Check(c C11Case, rec *Recorder) *Disc {
 	var m *cors.Middleware
@@ -267,6 +278,11 @@ func c11Check(c C11Case, rec *Recorder) *Disc {
 	if !resp.SameReq || !resp.SameW {
 		return discf("wrapped handler did not receive the very same request (%v) and writer (%v): %s", resp.SameReq, resp.SameW, where)
 	}
+	// ... and that request is as the client sent it: header map (every field line), method, target, protocol, host
+	sent := c.Req.HTTP()
+	if !headerMapsEqual(resp.ReqHdr, sent.Header) || resp.ReqLine != reqLine(sent) {
+		return discf("the request the wrapped handler received differs from the one that was sent: got %s %s, sent %s %s: %s", resp.ReqLine, abbrev(hdrSig(resp.ReqHdr), 400), reqLine(sent), abbrev(hdrSig(sent.Header), 400), where)
+	}
 	// header map at handler entry
 	if !configured {
 		if !headerMapsEqual(resp.Entry, preset) {
@@ -319,7 +335,7 @@ func TestC11(t *testing.T) {
 	Prop[C11Case]{ID: "C11", Gen: c11Gen, Check: c11Check,
 		Rule: "generator: configured (any valid configuration, both debug modes) or passthrough (zero value / Reconfigure(nil) after debug) middleware x method x Origin and ACRM each in {absent, present with zero values, empty string, one value, two values} x ACRH/ACRPN " +
 			"x inner-handler script (header Set/Add/Del on names incl. Vary and Access-Control-*, status none/2xx-5xx, body) x pre-set response headers from an outer wrapper x (25%) a second request served start to finish by the same wrapped handler while the first handler is between its header operations and its WriteHeader (two requests in flight, order owned by the harness; usually the same operations with other values). Oracle: predicate 'configured and OPTIONS and >=1 Origin value and >=1 ACRM value' decides: " +
-			"handler never invoked + empty body + pre-set headers kept, or invoked exactly once with the very same request and writer, header map at entry = pre-set (+Vary suffix, ACAO/ACAC/ACEH), final response = entry + the handler's own operations; passthrough: entry == pre-set exactly. " +
+			"handler never invoked + empty body + pre-set headers kept, or invoked exactly once with the very same request (same pointer, and header map / method / target / protocol / host as sent) and writer, header map at entry = pre-set (+Vary suffix, ACAO/ACAC/ACEH), final response = entry + the handler's own operations; passthrough: entry == pre-set exactly. " +
 			"non-trivial = boundary of the predicate (OPTIONS with zero-valued or empty Origin/ACRM; non-OPTIONS carrying both) or a handler touching Vary/CORS names; distinct by full case.",
 		Assumptions: []string{"the recorder freezes headers at the first WriteHeader/Write like net/http does; inner handlers use statuses 200-599 only"}}.Run(t)
 }
